@@ -622,7 +622,7 @@ def replay(prop, path):
     cfg = core.Cfg(toks[0])
     if hasattr(prop, 'replay'):
         return prop.replay(sys.modules[__name__], v)
-    if v.get('op') == 'exhaustive16':
+    if v.get('op') in ('exhaustive16', 'bulk-vs-primitive'):
         paths, _ = build(['exh'], 'rel')
         hdr, resp = run_driver(paths['exh'], v['request'] + '\n', 3600)
         o = core.parse_outcome(resp[0].split('=', 1)[1])
